@@ -26,6 +26,7 @@ def _own_nodes(fn: ast.AST):
 
 class Values:
     def __init__(self, an):
+        self._assume = None
         self.an = an
         self.keep_fresh = False  # trace(): stop at the variable holding a freshly created value instead of at the display
         self._aug: Dict[str, set] = {}
@@ -221,6 +222,10 @@ class Values:
             key = (f.qual, e.id)
             if key in _busy:
                 return []
+            if self._assume and key in self._assume:
+                # the step asked about was built for one particular value the helper returned into this local
+                t_, tenv_, v_ = self._assume[key]
+                return self.leaves(t_, tenv_, v_, _depth + 1, _busy | {key})
             out = []
             if e.id in sc.params:
                 if env and e.id in env and e.id not in self._augmented(f):
@@ -271,6 +276,14 @@ class Values:
                 if out:
                     return out
         return [(f, env, e)]
+
+    def leaves_at(self, node, e: ast.AST):
+        """leaves(...) of an expression evaluated at a CFG step, honouring the return-value assumptions the step was built under"""
+        self._assume = getattr(node, "assume", None)
+        try:
+            return self.leaves(node.func, node.env, e)
+        finally:
+            self._assume = None
 
     def trace_var(self, f: FuncInfo, env, e: ast.AST):
         """trace(), but a value created on the spot (a display, a constant) is represented by the variable that holds it"""
